@@ -3,14 +3,17 @@ RACE_ENV = {"VERIF_RACEMODE": "1"}
 CFG = {
     "C18": {
         "passes": [
-            {"prop": "C18", "share": 0.3, "name": "dense"},
-            {"prop": "C12", "share": 0.1, "name": "client-transactions"},
-            {"prop": "C13", "share": 0.1, "name": "client-relay-socket"},
-            {"prop": "C18", "share": 0.25, "name": "free-race-server", "race": True, "env": RACE_ENV, "workers": 8},
-            {"prop": "C14", "share": 0.25, "name": "free-race-e2e", "race": True, "env": RACE_ENV, "workers": 8},
+            {"prop": "C18", "share": 0.25, "name": "dense"},
+            {"prop": "C12", "share": 0.08, "name": "client-transactions"},
+            {"prop": "C13", "share": 0.08, "name": "client-relay-socket"},
+            {"prop": "C18", "share": 0.2, "name": "free-race-server", "race": True, "env": RACE_ENV, "workers": 8},
+            {"prop": "C14", "share": 0.15, "name": "free-race-e2e", "race": True, "env": RACE_ENV, "workers": 8},
+            {"prop": "C13", "share": 0.14, "name": "free-race-client-relay", "race": True, "env": RACE_ENV, "workers": 8},
+            {"prop": "C12", "share": 0.1, "name": "free-race-client-transactions", "race": True, "env": RACE_ENV, "workers": 8},
         ],
-        "evidence": {"race_detector": "passes 2 and 3 run UDP-listener server-world plans (scripted clients; real client + real server) on a -race build in "
-                     "free-running mode: no scheduler steps, no harness locks or counters on library paths, timers as the only network, GOMAXPROCS 4; "
+        "evidence": {"race_detector": "the free-race passes run UDP-listener server-world plans (scripted clients; real client + real server) and the client-world plans "
+                     "(real client against the scripted server: concurrent WriteTo/ReadFrom/Close/transactions) on a -race build in "
+                     "free-running mode: no scheduler steps, no harness locks or counters on library paths, timers as the only network, GOMAXPROCS 4, half of the short gaps between operations collapsed to zero so that calls really coincide; "
                      "a report with pion/turn frames kills the worker and is replayed"},
     },
 }
